@@ -880,3 +880,51 @@ def r13_16_identity_singletons_are_atomic(ctx: Ctx) -> RuleResult:
         else:
             rr.fail(f.qual, f"{made.name} has no __eq__ (its instances are compared by identity) and is created through `{sorted(d for d in f.decorators if 'cache' in d)[0]}`, which is not atomic: two threads can obtain two different `{made.name}` objects for the same arguments", ctx.loc(f))
     return rr
+
+
+# ------------------------------------------------------------------------------------------- R13.17 fill, then publish
+
+
+@rule("C13")
+def r13_17_containers_are_filled_before_they_are_published(ctx: Ctx) -> RuleResult:
+    """A table that other threads reach through a class attribute (or through an attribute of an already shared object) must be
+    complete when it becomes visible: storing the empty list first and appending afterwards lets a concurrent reader index a
+    half-built table (IndexError, or a silently wrong entry).  For every store of a container (a literal, list()/dict()/set(), or a
+    local that holds one) into a `cls.` attribute - or a `self.` attribute outside constructors - no later statement of the same
+    function may grow that container."""
+    rr = RuleResult("R13.17", "containers stored in class attributes (or in attributes of live objects) are complete when stored: nothing is appended to them afterwards in the same function", min_instances=3)
+    M = ctx.M
+    grow = ("append", "extend", "add", "update", "insert", "setdefault")
+    for f in sorted(set(M.func_of_node.values()), key=lambda x: x.qual):
+        if isinstance(f.node, ast.Lambda) or "_compatibility" in f.mod.rel or not f.mod.rel.startswith("pyoda_time/"):
+            continue
+        ctor = f.name in ("__init__", "_ctor", "__new__") or f.name.endswith("__ctor")
+        for pn in own_nodes(f.node):
+            if not isinstance(pn, (ast.Assign, ast.AnnAssign)) or pn.value is None:
+                continue
+            tg = [t for t in (pn.targets if isinstance(pn, ast.Assign) else [pn.target]) if isinstance(t, ast.Attribute) and isinstance(t.value, ast.Name) and (t.value.id == "cls" or (t.value.id == "self" and not ctor))]
+            if not tg:
+                continue
+            v = pn.value
+            local_container = isinstance(v, ast.Name) and any(isinstance(d, (ast.Assign, ast.AnnAssign)) and d.value is not None and isinstance(d.value, (ast.List, ast.Dict, ast.Set, ast.ListComp, ast.DictComp)) | (isinstance(d.value, ast.Call) and unparse(d.value.func) in ("list", "dict", "set"))
+                                                             and any(isinstance(t, ast.Name) and t.id == v.id for t in (d.targets if isinstance(d, ast.Assign) else [d.target])) for d in own_nodes(f.node))
+            rr.inst()
+            if not (local_container or isinstance(v, (ast.List, ast.Dict, ast.Set)) or (isinstance(v, ast.Call) and unparse(v.func) in ("list", "dict", "set"))):
+                rr.ok()  # the stored value is built elsewhere (a call, a scalar): complete when it arrives
+                continue
+            names = {unparse(tg[0])} | ({v.id} if isinstance(v, ast.Name) else set())
+            later = None
+            for n in own_nodes(f.node):
+                if getattr(n, "lineno", 0) <= pn.lineno:
+                    continue
+                if isinstance(n, ast.Call) and isinstance(n.func, ast.Attribute) and n.func.attr in grow and unparse(n.func.value) in names:
+                    later = n
+                if isinstance(n, (ast.Assign, ast.AugAssign)):
+                    for t in (n.targets if isinstance(n, ast.Assign) else [n.target]):
+                        if isinstance(t, ast.Subscript) and unparse(t.value) in names:
+                            later = n
+            if later is None:
+                rr.ok({"function": f.qual, "published": unparse(tg[0])})
+            else:
+                rr.fail(f.qual, f"`{unparse(pn)[:60]}` makes the container visible and `{unparse(later)[:60]}` fills it afterwards: a concurrent reader sees a partly built table", ctx.loc(f, pn))
+    return rr
